@@ -578,11 +578,24 @@ func (g *Gen) try(k string) (Op, bool) {
 			}
 		}
 		o = Op{Proc: "setattr", H: f.sym, HasSize: true, Size: sz}
+		if g.rng.Intn(4) == 0 { // size and times in one request, as a client's truncate sends them
+			o.At = TimeSpec{How: g.rng.Intn(3), Sec: uint32(g.rng.Intn(1 << 30)), Nsec: uint32(g.rng.Intn(1000000000))}
+			o.Mt = TimeSpec{How: g.rng.Intn(3), Sec: uint32(g.rng.Intn(1 << 30)), Nsec: uint32(g.rng.Intn(1000000000))}
+		}
 		g.pend = &pending{target: f}
 	case "settime":
 		f := g.pick(0)
 		o = Op{Proc: "setattr", H: f.sym, At: TimeSpec{How: g.rng.Intn(3), Sec: uint32(g.rng.Intn(1 << 30)), Nsec: uint32(g.rng.Intn(1000000000))},
 			Mt: TimeSpec{How: g.rng.Intn(3), Sec: uint32(g.rng.Intn(1 << 30)), Nsec: uint32(g.rng.Intn(1000000000))}}
+		if g.rng.Intn(3) == 0 {
+			// together with a size that must be refused (not a regular file, or beyond the announced maximum):
+			// the request as a whole has to be refused, the times included
+			o.HasSize = true
+			o.Size = uint64(g.rng.Intn(10000))
+			if f.kind == 1 {
+				o.Size = g.maxfs + 1 + uint64(g.rng.Intn(5000))
+			}
+		}
 	case "getattr", "access", "fsinfo":
 		f := g.pick(0)
 		o = Op{Proc: k, H: f.sym}
